@@ -49,10 +49,16 @@ def sortedLe : List String → Bool
   | a :: b :: rest => decide (a ≤ b) && sortedLe (b :: rest)
   | _ => true
 
-/-- The group-by tags `od` the implementation used for a point are the configured ones. -/
+/-- strictly increasing: sorted and duplicate-free. -/
+def sortedLt : List String → Bool
+  | a :: b :: rest => decide (a < b) && sortedLt (b :: rest)
+  | _ => true
+
+/-- The group-by tags `od` the implementation used for a point are the configured ones, each ONCE and in order: one
+group has one dimension list, hence one spelling of its id, whatever the script repeats or permutes. -/
 def dimsOk (star : Bool) (dims excl : List String) (tags : Tags) (od : List String) : Bool :=
   let want := if star then (tags.map (·.1)).filter (fun t => !excl.contains t) else dims
-  od.all (fun t => want.contains t) && want.all (fun t => od.contains t) && sortedLe od
+  od.all (fun t => want.contains t) && want.all (fun t => od.contains t) && sortedLt od
 
 /-- An emitted message as observed at the sink: the group key it carries and its full rendering. -/
 structure ObsMsg where
